@@ -19,23 +19,34 @@ inserted as they are (only characters that are no regex metacharacters are repre
 `Tok.lit`; the harness sends nothing else), `*` is `[^/]+`, a `**` segment is `.*` when it stands
 first and `(?:/.*)?` when it follows another segment, the named segment is `(?P<key>…)`.
 
-Also modelled: a template WITHOUT named segment (`toRegexUnnamed`; accepted by the code, key = field
-name), client-streaming methods (`header`: no request at call time, the parameter loops are not
-rendered), the schema-side `RoutingRule.resolve` (`resolveSchema`; it feeds the expected values
-of the emitted unit tests and differs from the emitted chain on empty values).
+Also modelled: a template WITHOUT named segment (`toRegexUnnamed`; `to_regex` accepts it, key = field
+name; `chainRaises`: on such a pattern `regex_match.group("<field>")` raises IndexError whenever the
+value matches — the same call in `RoutingRule.resolve`, made while the emitted tests are rendered,
+makes GENERATION fail, so no client with such a rule exists), the named segment written `{key}`
+(`Seg.bare`: `to_regex` rewrites it to `{key=*}`; a rule with it cannot be generated either,
+`uri_sample.sample_from_path_template` needs the `=`; function level only),
+client-streaming methods (`header`: no request at call time, the parameter
+loops are not rendered), the schema-side `RoutingRule.resolve` (`resolveSchema`; it feeds the
+expected values of the emitted unit tests and differs from the emitted chain on empty values), the
+`google.api.http` rule as `Method.field_headers` reads it (`HttpRule`: the `pattern` oneof incl.
+`custom {kind, path}`, additional bindings never read), and what the transports do with the call
+metadata (`callMetadata`, `grpcValues`: every pair is sent; `restHeaders`: the REST transports build
+`dict(metadata)`, so a key sent twice collapses to its last value).
 
 NOT modelled (stated, reached by T2/T3 or outside C06):
-* what the emitted `regex_match.group("<field>")` does for a template without named segment that
-  matches (IndexError at call time; routing.proto demands exactly one named segment);
-* literal segments with regex metacharacters (inserted unescaped by the code), templates whose
-  named segment is not a whole `/`-separated run (`x{k=*}y`, `{a}~{b}`), `{key}` without `=`;
+* literal segments with regex metacharacters (inserted unescaped by the code; `litItemsReal` states
+  the one realistic case, a `.` in a collection id), templates whose named segment is not a whole
+  `/`-separated run (`x{k=*}y`, `{a}~{b}`);
 * non-string routing fields: implicit routing sends `str(value)` through urlencode (ints are covered by
   T3 as decimal strings; enums/bools only as recorded probes); explicit routing calls `re.match` on
   the value and raises TypeError for non-strings;
 * `RoutingParameter.sample_request` / `uri_sample` (input of the emitted tests, C13/C14);
-* the ads templates call the same `create_metadata` macro (since e7125a7); covered by a T3 stream, same model;
-* `routing_header.to_grpc_metadata`'s lru_cache and the REST transport's `dict(metadata)` (a
-  duplicate header key would collapse; never produced by one `create_metadata`).
+* where the service is declared (API package or a proto sub-package), which template set renders the
+  client (standard / ads) and which transport carries the call do not occur in the model: T3 runs the
+  same model against all of them (sub-package layouts, two services, sync / asyncio gRPC, REST,
+  asyncio REST);
+* `routing_header.to_grpc_metadata`'s lru_cache; HTTP header-name case folding (a caller's
+  `X-Goog-Request-Params` is a different dict key for `dict(metadata)`).
 No Mathlib.
 -/
 namespace GapicModel.Model.Routing
@@ -53,6 +64,7 @@ deriving Repr, DecidableEq
 inductive Seg where
   | tok (t : Tok)
   | named (key : List Char) (sub : List Tok)
+  | bare (key : List Char)      -- `{key}`: `_convert_segment_to_regex` rewrites it to `{key=*}`
 deriving Repr, DecidableEq
 
 /-- supported grammar: exactly one named segment (`pre / {key=sub} / post`) -/
@@ -71,15 +83,30 @@ deriving Repr, DecidableEq
 def Template.segs (t : Template) : List Seg :=
   t.pre.map .tok ++ [.named t.key t.sub] ++ t.post.map .tok
 
+/-- is it a `{…}` segment (`_how_many_named_segments` counts the `{`) -/
+def Seg.isNamed : Seg → Bool
+  | .tok _ => false
+  | _ => true
+
+def Seg.tok? : Seg → Option Tok
+  | .tok t => some t
+  | _ => none
+
+/-- `{key}` is `{key=*}` -/
+def Seg.unbare : Seg → Seg
+  | .bare k => .named k [.star]
+  | s => s
+
 /-- split a segment list around its named segment(s) -/
 def ofSegsAux : List Seg → List Tok → Except Err Template
   | [], _ => .error .noNamed
   | .tok t :: r, acc => ofSegsAux r (acc ++ [t])
   | .named k sub :: r, acc =>
-      let n := (r.filter fun s => match s with | .named _ _ => true | _ => false).length
-      if n = 0 then
-        .ok ⟨acc, k, sub, r.filterMap fun s => match s with | .tok t => some t | _ => none⟩
-      else .error (.manyNamed (n + 1))
+      let n := (r.filter Seg.isNamed).length
+      if n = 0 then .ok ⟨acc, k, sub, r.filterMap Seg.tok?⟩ else .error (.manyNamed (n + 1))
+  | .bare k :: r, acc =>
+      let n := (r.filter Seg.isNamed).length
+      if n = 0 then .ok ⟨acc, k, [.star], r.filterMap Seg.tok?⟩ else .error (.manyNamed (n + 1))
 
 def ofSegs (segs : List Seg) : Except Err Template := ofSegsAux segs []
 
@@ -98,6 +125,7 @@ def joinSlash : List (List Char) → List Char
 def renderSeg : Seg → List Char
   | .tok t => renderTok t
   | .named k sub => '{' :: k ++ '=' :: joinSlash (sub.map renderTok) ++ ['}']
+  | .bare k => '{' :: k ++ ['}']
 
 def renderSegs (segs : List Seg) : List Char := joinSlash (segs.map renderSeg)
 def render (t : Template) : List Char := renderSegs t.segs
@@ -427,5 +455,75 @@ def dstarOnlyLast : List Tok → Bool
 /-- the grammar of routing.proto: `**` only as the last segment of the whole template -/
 def Template.wf (t : Template) : Bool :=
   noDstar t.pre && dstarOnlyLast t.sub && dstarOnlyLast t.post && (noDstar t.sub || t.post.isEmpty)
+
+/-! ### the `google.api.http` rule as `Method.field_headers` reads it -/
+
+/-- the `pattern` oneof of `google.api.HttpRule` -/
+inductive Verb where
+  | get | put | post | delete | patch
+  | custom (kind : List Char)            -- `custom { kind: "HEAD" path: "…" }`
+deriving Repr, DecidableEq
+
+structure HttpRule where
+  verb : Verb
+  path : List Char
+  additional : List (Verb × List Char) := []   -- `additional_bindings`: never read by `field_headers`
+deriving Repr, DecidableEq
+
+/-- `[http.get, http.put, http.post, http.delete, http.patch, http.custom.path]`: the oneof fills one
+    slot, the others read as `""` -/
+def HttpRule.verbs (h : HttpRule) : List (List Char) :=
+  match h.verb with
+  | .get => [h.path, [], [], [], [], []]
+  | .put => [[], h.path, [], [], [], []]
+  | .post => [[], [], h.path, [], [], []]
+  | .delete => [[], [], [], h.path, [], []]
+  | .patch => [[], [], [], [], h.path, []]
+  | .custom _ => [[], [], [], [], [], h.path]
+
+/-- no `google.api.http` option: the default instance, six empty strings -/
+def verbsOf : Option HttpRule → List (List Char)
+  | none => [[], [], [], [], [], []]
+  | some h => h.verbs
+
+/-- a method as the proto author wrote it -/
+def methodOf (routing : Option (List Param)) (http : Option HttpRule) (clientStreaming : Bool) : Method :=
+  ⟨routing, verbsOf http, clientStreaming⟩
+
+/-! ### what the transports do with the metadata of a call -/
+
+/-- the lower-case metadata key -/
+def hdrName : List Char := "x-goog-request-params".toList
+
+/-- the metadata sequence the transport receives: the caller's `metadata=` argument, then the pair
+    `create_metadata` appends (if any), then what the wrapped method appends (`x-goog-api-client`) -/
+def callMetadata (user : List (List Char × List Char)) (routing : Option (List Char))
+    (extra : List (List Char × List Char)) : List (List Char × List Char) :=
+  user ++ (match routing with | some h => [(hdrName, h)] | none => []) ++ extra
+
+/-- gRPC transports (sync and asyncio): every pair goes on the wire, in order -/
+def grpcValues (md : List (List Char × List Char)) (k : List Char) : List (List Char) :=
+  (md.filter (·.1 = k)).map (·.2)
+
+/-- REST transports (sync and asyncio): `headers = dict(metadata)` -/
+def restHeaders (md : List (List Char × List Char)) : List (List Char × List Char) :=
+  md.foldl (fun d kv => dictSet d kv.1 kv.2) []
+
+def restValue (md : List (List Char × List Char)) (k : List Char) : Option (List Char) :=
+  dictGet (restHeaders md) k
+
+/-! ### the emitted chain on a parameter whose template has no named segment -/
+
+/-- `key` falls back to the field name, the regex has no group of that name:
+    `if regex_match and regex_match.group("<field>")` raises IndexError exactly when the value
+    matches (routing.proto excludes such templates; the generator accepts them) -/
+def chainRaises (ct : ClassTables) (ts : List Tok) (v : List Char) : Bool := matchesUnnamed ct ts v
+
+/-! ### literal segments as the code really inserts them (only `.` considered) -/
+
+/-- `_convert_segment_to_regex` copies a collection id into the pattern unescaped: a `.` in it is
+    the regex "any character" -/
+def litItemsReal (cs : List Char) : List Re :=
+  cs.map fun c => if c = '.' then Re.any else Re.chr c
 
 end GapicModel.Model.Routing
